@@ -12,6 +12,7 @@ class Mirror:
         self.db = DB(mem_kb=mem_kb)
         self.ref = Ref()
         self.tables = {}      # name -> (types, names, kinds)
+        self.sqlname = {}     # name -> the spelling used in SQL text (table names are case-insensitive: stored lower-case)
         self.fails = []       # (what, why)
         self.nverify = 0
 
@@ -30,14 +31,19 @@ class Mirror:
             return False
         return True
 
-    def create(self, name, via_sql=True, kinds_pool="nsb", ncols=None, types=None):
+    def q(self, name):
+        return self.sqlname.get(name, name)
+
+    def create(self, name, via_sql=True, kinds_pool="nsb", ncols=None, types=None, colnames=None, sqlname=None):
         rng = self.rng
         ncols = ncols or rng.randrange(1, 6)
         types = types or [rng.choice("iifs") for _ in range(ncols)]
-        names = ["c%d" % i for i in range(ncols)]
+        names = colnames or ["c%d" % i for i in range(ncols)]
+        if sqlname and via_sql:
+            self.sqlname[name] = sqlname
         if via_sql:
             tn = {"i": "int", "f": "float", "s": "varchar(255)"}
-            r = self.db.sql("CREATE TABLE %s(%s);" % (name, ", ".join("%s %s" % (n, tn[t]) for n, t in zip(names, types))))
+            r = self.db.sql("CREATE TABLE %s(%s);" % (self.q(name), ", ".join("%s %s" % (n, tn[t]) for n, t in zip(names, types))))
             kinds = ["s"] * ncols
         else:
             kinds = [rng.choice(kinds_pool) for _ in types]
@@ -63,7 +69,7 @@ class Mirror:
         types, names, kinds = self.tables[name]
         vals = vals or self.rnd_vals(name)
         if all(v.literal_ok() for v in vals):
-            r = self.db.sql("INSERT INTO %s(%s) VALUES (%s);" % (name, ",".join(names), ", ".join(v.sql() for v in vals)))
+            r = self.db.sql("INSERT INTO %s(%s) VALUES (%s);" % (self.q(name), ",".join(names), ", ".join(v.sql() for v in vals)))
         else:
             r = self.db.cmd("rawinsert %s %s" % (name, " ".join(v.tok() for v in vals)))
         if r.startswith("ok"):
@@ -91,7 +97,7 @@ class Mirror:
             asg.append((c, v))
         if not all(v.literal_ok() for _, v in asg):
             return
-        sql = "UPDATE %s SET %s WHERE %s;" % (name, ", ".join("%s = %s" % (names[c], v.sql()) for c, v in asg), p.sql(names))
+        sql = "UPDATE %s SET %s WHERE %s;" % (self.q(name), ", ".join("%s = %s" % (names[c], v.sql()) for c, v in asg), p.sql(names))
         r = self.db.sql(sql)
         if r.startswith("ok"):
             self.ref.cmd("U %s %s %s" % (name, ",".join("%d=%s" % (c, v.tok()) for c, v in asg), p.rpn()))
@@ -101,7 +107,7 @@ class Mirror:
     def delete(self, name):
         types, names, kinds = self.tables[name]
         p = self.rnd_where(name)
-        sql = "DELETE FROM %s WHERE %s;" % (name, p.sql(names))
+        sql = "DELETE FROM %s WHERE %s;" % (self.q(name), p.sql(names))
         r = self.db.sql(sql)
         if r.startswith("ok"):
             self.ref.cmd("D %s %s" % (name, p.rpn()))
@@ -136,7 +142,7 @@ class Mirror:
                 p = self.rnd_where(name, allow_or=True)
             cols = list(range(len(types)))
             for variant, pp in (("index path", p), ("scan path", Bin("or", p, p))):
-                sql = "SELECT %s FROM %s WHERE %s;" % (",".join(names), name, pp.sql(names))
+                sql = "SELECT %s FROM %s WHERE %s;" % (",".join(names), self.q(name) if self.rng.random() < 0.7 else name, pp.sql(names))
                 got = canon_rows(self.db.sql(sql))
                 want = self.ref.cmd("S %s %s %s" % (name, ",".join(map(str, cols)), pp.rpn()))
                 if got != want:
@@ -186,7 +192,7 @@ class Mirror:
                 vals = self.rnd_vals(name)
                 if not all(v.literal_ok() for v in vals):
                     continue
-                sql = "INSERT INTO %s(%s) VALUES (%s);" % (name, ",".join(names), ", ".join(v.sql() for v in vals))
+                sql = "INSERT INTO %s(%s) VALUES (%s);" % (self.q(name), ",".join(names), ", ".join(v.sql() for v in vals))
                 ro = "R %s %s" % (name, ",".join(v.tok() for v in vals))
             elif r < 0.75:
                 p = self.rnd_where(name)
@@ -199,11 +205,11 @@ class Mirror:
                     asg.append((c, v))
                 if not all(v.literal_ok() for _, v in asg):
                     continue
-                sql = "UPDATE %s SET %s WHERE %s;" % (name, ", ".join("%s = %s" % (names[c], v.sql()) for c, v in asg), p.sql(names))
+                sql = "UPDATE %s SET %s WHERE %s;" % (self.q(name), ", ".join("%s = %s" % (names[c], v.sql()) for c, v in asg), p.sql(names))
                 ro = "U %s %s %s" % (name, ",".join("%d=%s" % (c, v.tok()) for c, v in asg), p.rpn())
             else:
                 p = self.rnd_where(name)
-                sql = "DELETE FROM %s WHERE %s;" % (name, p.sql(names))
+                sql = "DELETE FROM %s WHERE %s;" % (self.q(name), p.sql(names))
                 ro = "D %s %s" % (name, p.rpn())
             a = self.db.cmd("tsql w " + sql)
             if a.startswith("ok"):
